@@ -16,7 +16,16 @@ GenInit == Init /\ hist = << >> /\ gcper \in GCPers
 
 \* outcomes that differ from the code's only by the reading of a comparison at equality
 \* (computed only when some compared pair is equal)
+\* a stamp tie: the body holds one label set more than once, or a submitted label set was
+\* stored at this very instant (then every comparison of the second alert is made against
+\* what the first left: all readings are computed)
+StampTie(batch) ==
+  \/ ~DistinctBatch(batch, now)
+  \/ \E i \in 1..Len(batch) :
+        LET a == Defaulted(batch[i], now)
+        IN ValidAlert(a) /\ a.fp \in DOMAIN store /\ store[a.fp].upd = now
 HasTie(batch) ==
+  \/ StampTie(batch)
   \/ \E i \in 1..Len(batch) :
         LET a == Defaulted(batch[i], now)
         IN /\ ValidAlert(a)
@@ -25,14 +34,26 @@ HasTie(batch) ==
                  /\ LET o == store[a.fp]
                     IN a.end = o.start \/ a.end = o.end \/ a.start = o.start \/ a.start = o.end \/ o.end = now
   \/ (Limit > 0 /\ \E n \in DOMAIN buckets : buckets[n][1].pri = now)
+Readings(sw) == {[i \in 1..7 |-> IF i = 7 THEN sw ELSE g[i]] : g \in [1..6 -> BOOLEAN]}
+Proj(R) == [st |-> R.store, lim |-> R.limited, res |-> R.res]
 Alts(batch) ==
-  LET proj(R) == [st |-> R.store, lim |-> R.limited, res |-> R.res]
-  IN IF ~HasTie(batch) THEN {}
-     ELSE {proj(RunBatch(batch, now, f)) : f \in [1..6 -> BOOLEAN]} \ {proj(RunBatch(batch, now, NoTies))}
+  IF ~HasTie(batch) THEN {}
+  ELSE {Proj(RunBatch(batch, now, f)) : f \in Readings(FALSE)} \ {Proj(RunBatch(batch, now, NoTies))}
+\* outcomes in which, at equal stamps, the stored alert was taken as the younger one (an
+\* earlier submission overwrote a later one), that are not outcomes above; fixed = the
+\* statement forbids the outcome (Alerts!OrderClauses), otherwise it is left open
+Swaps(batch) ==
+  IF ~StampTie(batch) THEN {}
+  ELSE LET base == Alts(batch) \cup {Proj(RunBatch(batch, now, NoTies))}
+           outs == {RunBatch(batch, now, f) : f \in Readings(TRUE)}
+       IN {[st |-> R.store, lim |-> R.limited, res |-> R.res,
+            fixed |-> ~OrderClauses(batch, R.res, now, R.store)] : R \in {X \in outs : Proj(X) \notin base}}
 
 Obs == [e |-> last', t |-> now', st |-> store', lim |-> limited', gcper |-> gcper,
         vis  |-> Visible(store', sil', now'),
         alts |-> IF last'.op = "post" THEN Alts(last'.batch) ELSE {},
+        swaps |-> IF last'.op = "post" THEN Swaps(last'.batch) ELSE {},
+        t0   |-> now,
         \* C18: names over their limit after this step, names in the state of finding F4,
         \* re-sends of admitted unexpired alerts that this step refuses
         over |-> IF Limit = 0 THEN {} ELSE {n \in Names : ~LimitHolds(n)'},
@@ -45,6 +66,8 @@ GenNext == /\ Len(hist) < HistLen
            /\ \/ ("post1" \in Ops /\ Post1)
               \/ ("postn" \in Ops /\ PostN)
               \/ ("postn" \in Ops /\ PostN)       \* (twice: submissions are the subject)
+              \/ ("postdup" \in Ops /\ PostDup)
+              \/ ("postsame" \in Ops /\ PostSame)
               \/ TickStep
               \/ ("sil" \in Ops /\ SilOn)
               \/ ("sil" \in Ops /\ SilOff)
